@@ -108,7 +108,7 @@ func (m *Machine) initStep(th *Thread, root *Frame) {
 	if fr.caller != nil && fr.caller.initFrame && fr.caller.fn.Synthetic == "package initializer" {
 		fr.initFrame = true
 	}
-	if fr.status == stPanicking || (fr.status == stRecovered && fr.block == nil) {
+	if fr.status != stRunning {
 		m.unwindStep(th)
 		return
 	}
